@@ -274,6 +274,13 @@ R_C05_GraceStartMatches(gh, c, pol, req, a, o) ==
    (NonSkip(req) /\ Sound(c, pol) /\ EffUnavail(c, pol, a) /\ o.after.kind = "sess") => o.after.grace = GraceElapsed(gh, c)
 R_C05_SuccessEndsEpisode(c, pol, req, a, o) ==
    (NonSkip(req) /\ Confirmed(c, pol, a, o) /\ o.after.kind = "sess") => o.after.grace = NoGrace
+\* a tolerated 429 / 503 defers the due check by one validity period at most: the bound "only until the grace TTL
+\* has elapsed" is enforced AT the next check, so whatever the authenticator adds to its answer (a Retry-After,
+\* a body) must not push that check further away
+R_C05_GraceDefersOnePeriod(c, pol, req, a, o) ==
+   (NonSkip(req) /\ Sound(c, pol) /\ EffUnavail(c, pol, a) /\ o.after.kind = "sess") =>
+      /\ Due(c) = "validate" => o.after.val <= ValidTTL
+      /\ Due(c) = "refresh" => o.after.ref <= ValidTTL
 R_C05_NoStampWithoutOutage(c, pol, req, a, o) ==
    (c.kind = "sess" /\ o.after.kind = "sess" /\ ~EffUnavail(c, pol, a)) => o.after.grace \in {NoGrace, c.grace}
 
@@ -292,6 +299,7 @@ Rules(gh, c, pol, req, a, o) ==
      C05_NoGraceOther         |-> R_C05_NoGraceOther(c, pol, req, a, o),
      C05_GraceStartMatches    |-> R_C05_GraceStartMatches(gh, c, pol, req, a, o),
      C05_SuccessEndsEpisode   |-> R_C05_SuccessEndsEpisode(c, pol, req, a, o),
+     C05_GraceDefersOnePeriod |-> R_C05_GraceDefersOnePeriod(c, pol, req, a, o),
      C05_NoStampWithoutOutage |-> R_C05_NoStampWithoutOutage(c, pol, req, a, o) ]
 
 Violated(gh, c, pol, req, a, o) ==
